@@ -831,6 +831,8 @@ class SV:
             eqc = self._cmp(a2, _eq, _eq)
             if isinstance(eqc, SymBool):
                 E.defs.append(z3.Implies(eqc.t, v == v2))
+            elif eqc is True:
+                E.defs.append(v == v2)        # the arguments are the same polynomial (decided by exact arithmetic)
             if a2.d is None and self.d is None:
                 E.defs.append(z3.Implies(self.n <= a2.n, v <= v2))
                 E.defs.append(z3.Implies(self.n >= a2.n, v >= v2))
